@@ -4,6 +4,7 @@ CONSTANTS
   ValidateIndices = TRUE
   GuardCombine = TRUE
   GuardControl = TRUE
+  SafeDecode = TRUE
   NoSigpipe = FALSE
   MaxHist = 4
 INVARIANTS C35_NoThrow
